@@ -172,7 +172,12 @@ def run_wiring(dd, case, acc, workdir):
     try:
         dd.checker.do_golden_runs()
     except SystemExit as e:
-        raise RuntimeError(f'golden run refused a generated case: {case!r} ({e})')
+        # the generator only builds golden runs that satisfy their own match strings: a
+        # refusal means the golden run did not see what the given command prints
+        acc.violation('wiring/golden-run-refused',
+                      f'the golden run of a command that satisfies its match strings was refused ({e}); '
+                      f'executions: {[(c["role"], c["exit"]) for c in spec.read_log(log)]}', case)
+        return
     golden_calls = spec.read_log(log)
     if os.path.exists(log):
         os.unlink(log)
